@@ -329,16 +329,18 @@ def pool_cases(rng, tier):
                     "entry": "mrg", "pool": pool, "compare_serial": True, "kinds": ["wide"] * len(fr["cols"])})
     reps = 1 if tier == "quick" else 3
     for _ in range(reps):
-        k2 = rng.choice([17, 20])           # 169 / 229 calls: >= 128, odd
+        # column counts chosen so that the trigger holds whether or not the non-label diagonal is listed twice
+        # (calls = k(k+1)/2 since b3d9d15, k(k+1)/2 + k-1 before): >= 64 * workers and not a multiple of the worker count
+        k2 = rng.choice([17, 21])           # 153 / 231 (169 / 251) calls: >= 128, odd
         f2 = gen_wide_frame(rng, k2, rng.randint(300, 400))
         add(f2, "max-value-coverage", {"kind": "real", "nodes": 2})
         add(f2, "MI-numba-3mr", {"kind": "fake", "ncpus": 2})
         add(f2, "MI-numba-randomized", {"kind": "real", "nodes": 2})
-        k3 = rng.choice([19, 20])           # 208 / 229 calls: >= 192, = 1 mod 3
+        k3 = rng.choice([22, 25])           # 253 / 325 (274 / 349) calls: >= 192, = 1 mod 3
         f3 = gen_wide_frame(rng, k3, rng.randint(300, 400))
         add(f3, "MI-numba-randomized", {"kind": "real", "nodes": 3})
         add(f3, "max-value-coverage", {"kind": "fake", "ncpus": 3})
-        k8 = rng.choice([32, 33])           # 559 / 593 calls: >= 512, = 7 / 1 mod 8
+        k8 = rng.choice([33, 34])           # 561 / 595 (593 / 628) calls: >= 512, not a multiple of 8
         f8 = gen_wide_frame(rng, k8, rng.randint(100, 140))
         add(f8, "max-value-coverage", {"kind": "fake", "ncpus": 8})
         add(f8, "MI-numba-randomized", {"kind": "fake", "ncpus": 8})
@@ -674,6 +676,11 @@ def evaluate(cases, stats=None, budget=8e6):
         if ci in twin_of and r["ok"]:
             tr = allres[twin_of[ci]]
             stats["pool_twin_comparisons"] = stats.get("pool_twin_comparisons", 0) + 1
+            pl = c.get("pool") or {}
+            w = int(pl.get("nodes", pl.get("ncpus", 1)))
+            ncalls = len(r.get("selected") or [])
+            if w > 1 and ncalls >= 64 * w and ncalls % w != 0:
+                stats["pool_cases_with_64_calls_per_worker_and_uneven_split"] = stats.get("pool_cases_with_64_calls_per_worker_and_uneven_split", 0) + 1
             if not tr["ok"]:
                 v["bad"].append({"clause": "the batch is scored without an exception / crash (one-worker pool)", "impl": tr["error"]})
             else:
@@ -906,7 +913,9 @@ def _check(run, replay):
     silent = [d for d in doc if NAME_CLASS[d]["sem"] == "fallback"]
     run.cov["documented_names_dispatched_to_fallback"] = silent
     if replay is not None:
-        cases = [replay["case"]]
+        # a failure that needs earlier batches in the same process carries them as "history" (run first, not judged)
+        cases = [dict(h, history_only=True) for h in replay["case"].get("history", [])] + \
+                [{k: v for k, v in replay["case"].items() if k != "history"}]
     else:
         cases = []
         for c in load_corpus("C05"):
@@ -935,7 +944,7 @@ def _check(run, replay):
                 seen_frames.add(k)
                 c["record_codes"] = True
     stats = {}
-    verdicts = evaluate(cases, stats, budget=8e6 if run.tier == "quick" else 2e7)
+    verdicts = evaluate(cases, stats, budget=3e6 if run.tier == "quick" else 2e7)
 
     hist = {"pool": {}, "rows_bucket": {}, "ncols": {}, "heuristic": {}, "mode": {}, "entry": {}, "max_cardinality_bucket": {},
             "column_kinds": {}, "impl_errors": 0, "rows_compared": 0}
@@ -969,6 +978,8 @@ def _check(run, replay):
         canon = [c["names"], c["cols"], c["label"], c["heuristic"], c["target_only"], c.get("entry", "mrg"),
                  c.get("interaction_order", 1), c.get("pool")]
         run.count_case(canon, v["nontrivial"])
+        if c.get("history_only"):
+            continue
         if v["bad"]:
             nviol += 1
             bump(by_heur, c["heuristic"])
@@ -981,13 +992,19 @@ def _check(run, replay):
         best, bestv = c, v
         if replay is None:
             try:
-                cands = shrink(c, v["bad"][0])
-                if cands:
-                    sv = evaluate(cands, {})
-                    for cc, vv in zip(cands, sv):
-                        if vv["bad"]:
-                            best, bestv = cc, vv
-                            break
+                cands = shrink(c, v["bad"][0]) + [dict(c)]
+                sv = evaluate(cands, {})
+                hit = [(cc, vv) for cc, vv in zip(cands, sv) if vv["bad"]]
+                if hit:
+                    best, bestv = hit[0]
+                else:
+                    # alone (fresh process) the case passes: the failure depends on what the process ranked before
+                    ci = next(k for k, x in enumerate(cases) if x is c)
+                    prev = [x for x in cases[:ci] if set(x["names"]) & set(c["names"]) and x["cols"] is not c["cols"]][-2:] or cases[max(0, ci - 2):ci]
+                    hv = evaluate([dict(x) for x in prev] + [dict(c)], {})
+                    if hv[-1]["bad"]:
+                        best = dict(c, history=[{k: x[k] for k in x if k not in ("kinds", "record_codes")} for x in prev])
+                        bestv = hv[-1]
             except vlib.Broken:
                 pass
         best = {k: best[k] for k in best if k != "kinds"}
